@@ -5,7 +5,7 @@ byte-level histories are replayed into real mmap'd bytes.MirroredBuffer objects;
 traces (claim geometry, returns, getters, physical mirror/content probes, mapping census
 after Destroy) are validated by TLC against MirrorMon."""
 import json, os, collections
-import vlib
+import vlib, apa
 
 LEVEL = "model_checking"
 
@@ -183,9 +183,9 @@ def run(ck):
     else:
         for j, pg in enumerate(pages_list + [7, 12, 16]):
             jobs.append((cover, (pg, P, 0, 0, pg <= 8, True, "p%d_exact" % pg)))
-            for cls in (1, 2, 3):
-                jobs.append((cover, (pg, P, cls, (s + j + cls) % 2, False, cls == 1, "p%d_r%d" % (pg, cls))))
-        for pg in (1, 2, 3, 5):
+            cls = 1 + (s + j) % 3
+            jobs.append((cover, (pg, P, cls, (s + j) % 2, False, False, "p%d_r%d" % (pg, cls))))
+        for pg in (1, 2, 3):
             # finer unit: 16 units per page (256 bytes)
             jobs.append((cover, (pg, 16, 0, 1, False, True, "p%d_u16" % pg)))
             jobs.append((cover, (pg, 16, 5, 0, False, False, "p%d_u16r" % pg)))
@@ -193,14 +193,21 @@ def run(ck):
         k = 0
         for j, pg in enumerate(pages_list + [7, 12, 16]):
             for t in range(2):
-                jobs.append((sim, (k, pg, subs[(s + j + 3 * t) % len(subs)], t, 5000, 80)))
+                jobs.append((sim, (k, pg, subs[(s + j + 3 * t) % len(subs)], t, 3000, 80)))
                 k += 1
         jobs += [(buggy, (pg,)) for pg in (1, 2, 3, 4, 5, 6, 7, 8, 12)]
 
-    with ThreadPoolExecutor(max_workers=4 if quick else 6) as ex:
+    # additional evidence, never a verdict: Apalache proves the index machines' invariants inductive for
+    # unbounded sizes and amounts (typed variants of MirrorImpl's and BipImpl's index machines)
+    ajobs = apa.inductive(ck.work, os.path.join(vlib.VERIF, "spec", "Mirror", "apalache", "MirrorInd.tla")) + \
+        apa.inductive(ck.work, os.path.join(vlib.VERIF, "spec", "Bip", "apalache", "BipInd.tla"),
+                      extra=[("place: a commit lands where the claim was", ["--cinit=CInit", "--init=IndInit", "--inv=Placed", "--length=1"], "NoError")])
+    with ThreadPoolExecutor(max_workers=4 if quick else 6) as ex, ThreadPoolExecutor(max_workers=2) as aex:
+        afuts = [aex.submit(apa.check, *j) for j in ajobs]
         futs = [ex.submit(f, *a) for f, a in jobs]
         for f in futs:
             f.result()
+        ck.cov["apalache"] = [f.result() for f in afuts]
     ck.cov["tlc_runs"].sort(key=lambda r: (r["name"], r["constants"].get("Page", 0), r["constants"].get("Req", 0)))
     ck.cov["model_findings"] = sorted("%s: %s" % kv for kv in model_findings.items())
     ck.cov["edge_classes"] = dict(sorted(classes.items()))
@@ -213,6 +220,7 @@ def run(ck):
         "memory contents are not part of the model; on recorded traces every claimed byte is tagged with its stream index modulo 251 and the ring is projected to runs of successive tokens",
         "claim offsets are pointer differences against the first claim (of Size() bytes, not committed) on the fresh buffer",
         "mappings are attributed to a buffer by the name of its backing file in /proc/self/maps",
+        "coverage.apalache (inductive invariants of typed index machines for unbounded sizes) is additional evidence only; its outcome never enters the verdict",
     ]
 
 
